@@ -451,3 +451,6 @@ RULES = [
     ("C08.EQONLY", 12, rule_eqonly),
     ("C08.ORDERINS", 20, rule_orderins),
 ]
+
+from . import common as _common_purity
+RULES = RULES + _common_purity.purity_rules("C08")
